@@ -298,8 +298,16 @@ func (e *env) bits(m minted) string {
 	for i, s := range sans {
 		sh[i] = hx(s)
 	}
-	return fmt.Sprintf("p=%s c=%s d=%s g=%s org=%s pmap=%s rk=%s now=%d nbf=%d exp=%d iat=%d aud=%s dns=%s iss=%s sub=%s sans=%s adm=%s",
-		c.B(p), c.B(ch), c.B(ds), c.B(sg), org, e.provMap(), rk, time.Now().Unix(), m.nbf, m.exp, m.iat, c.List(auds), hx(fixture.DNSName),
+	// gone=1: the certificate's record names a provisioner that is no longer served while its extension
+	// carries the name of one that is (the shape of known finding C16-O4; a description of the two
+	// fields before, for the known-finding match)
+	pm := e.provMap()
+	gone := false
+	if parts := strings.SplitN(org, "~", 2); len(parts) == 2 && parts[0] != "!" && parts[1] != "!" {
+		gone = !strings.Contains(","+pm+",", ","+parts[0]+"~") && strings.Contains(pm+",", "~"+parts[1]+",")
+	}
+	return fmt.Sprintf("p=%s c=%s d=%s g=%s org=%s gone=%s pmap=%s rk=%s now=%d nbf=%d exp=%d iat=%d aud=%s dns=%s iss=%s sub=%s sans=%s adm=%s",
+		c.B(p), c.B(ch), c.B(ds), c.B(sg), org, c.B(gone), pm, rk, time.Now().Unix(), m.nbf, m.exp, m.iat, c.List(auds), hx(fixture.DNSName),
 		hx(m.iss), hx(m.sub), c.List(sh), e.admins())
 }
 
